@@ -57,6 +57,7 @@ class World(object):
         self.cls = None
         self.nested_target = None
         self.recording_ids = []
+        self.detached = []      # worker threads the operation did not wait for
         self.shared = {}        # share key -> the one object instance that several calls pass as argument
 
     def cur(self):
@@ -347,6 +348,12 @@ def build_class(prog, rec, W, decorated=True):
                 ths = [W.thread_factory(target=worker, args=(k, ws)) for k, ws in enumerate(s['workers'])]
                 for th in ths:
                     th.start()
+                if s.get('detach'):
+                    # fire-and-forget workers: the operation does not wait for them, they may outlive it (whoever
+                    # runs the program joins W.detached afterwards)
+                    W.detached.extend(ths)
+                    seen.append(('threads-detached', s['sid'], len(ths)))
+                    continue
                 for th in ths:
                     th.join()
                 seen.append(('threads', s['sid'], results))
